@@ -17,6 +17,9 @@ type theFieldInfo struct {
 	Index             []int
 	Type              reflect.Type
 	JSONName          string
+
+	// nameFromTag tells that JSONName was given by the "json" tag
+	nameFromTag bool
 }
 
 func appendFields(fields []theFieldInfo, parentIndex []int, t reflect.Type) []theFieldInfo {
@@ -82,6 +85,7 @@ iteration:
 				if i == 0 {
 					if part != "" {
 						field.JSONName = part
+						field.nameFromTag = true
 					}
 				} else {
 					switch part {
@@ -111,10 +115,39 @@ func (list sortableFieldInfos) Len() int {
 }
 
 func (list sortableFieldInfos) Less(i, j int) bool {
-	return list[i].JSONName < list[j].JSONName
+	a, b := list[i], list[j]
+	if a.JSONName != b.JSONName {
+		return a.JSONName < b.JSONName
+	}
+	// Same JSON name: order of precedence of encoding/json,
+	// the least nested field first, then the one named by its tag.
+	if len(a.Index) != len(b.Index) {
+		return len(a.Index) < len(b.Index)
+	}
+	return a.nameFromTag && !b.nameFromTag
 }
 
 func (list sortableFieldInfos) Swap(i, j int) {
 	a, b := list[i], list[j]
 	list[i], list[j] = b, a
+}
+
+// dominantFields keeps, for each JSON name of a list sorted with sortableFieldInfos,
+// the field encoding/json would encode: the least nested one, or among several of
+// these the only one named by its tag. A name that remains ambiguous has no field.
+func dominantFields(fields []theFieldInfo) []theFieldInfo {
+	out := fields[:0]
+	for i := 0; i < len(fields); {
+		j := i + 1
+		for j < len(fields) && fields[j].JSONName == fields[i].JSONName {
+			j++
+		}
+		if j == i+1 ||
+			len(fields[i].Index) != len(fields[i+1].Index) ||
+			fields[i].nameFromTag != fields[i+1].nameFromTag {
+			out = append(out, fields[i])
+		}
+		i = j
+	}
+	return out
 }
